@@ -60,6 +60,19 @@ def run(module, cfg_text, workers=16, heap="4g", env=None, on_line=None, timeout
                              text=True, bufsize=1 << 20)
         errmode = 0
         tail = []
+        # a silent TLC (an oracle that does not terminate on an unforeseen state) is killed by a timer
+        import threading
+        timed_out = []
+
+        def _kill():
+            timed_out.append(1)
+            try:
+                p.kill()
+            except Exception:
+                pass
+        timer = threading.Timer(timeout, _kill)
+        timer.daemon = True
+        timer.start()
         for line in p.stdout:
             line = line.rstrip("\n")
             tail.append(line[:300])
@@ -86,6 +99,10 @@ def run(module, cfg_text, workers=16, heap="4g", env=None, on_line=None, timeout
                 res["errors"].append("timeout after %ss" % timeout)
                 break
         res["rc"] = p.wait()
+        timer.cancel()
+        if timed_out and not any("timeout" in e for e in res["errors"]):
+            res["errors"].append("timeout after %ss (TLC killed)" % timeout)
+            res["ok"] = False
         res["tail"] = tail
     finally:
         if keep:
